@@ -426,7 +426,7 @@ def policy(run, m, F, E, pairs):
                                 sig.append(('err', code))
                     if not its:
                         bad.append('no path explored')
-                    per_mode[label] = sorted(set(sig))
+                    per_mode[label] = sorted(set(sig), key=repr)
                     run.ob('R02.2', subject, not bad, bad[0] if bad else '%s: %s' % (cls['expect'], ', '.join(describe(it, eb_src) for it in its[:2])),
                            disc='%s / %s' % (cls['name'], label), loc=fn_loc(C))
             # accepted classes: same continuing behaviour in every mode (mode independence on well-formed input)
